@@ -431,6 +431,7 @@ pub fn build<T: Smp>(op: &Value) -> (Option<Inst<T>>, Value) {
         "lo":words(r/mr),"hi":words(r*mr),"rlo":words(1.0/mr),"rhi":words(mr),
         "signal":gs(op,"signal","index"),"twin":gs(op,"twin",""),"of":gi(op,"of",-1),
         "chbase":gi(op,"chbase",0),
+        "imp": op.get("imp").cloned().unwrap_or(json!([])),
     });
     let m = ev.as_object_mut().unwrap();
     match built {
